@@ -329,8 +329,16 @@ def load_known(pid):
     """known-findings.txt: 'finding: property=<id> class=<cls> ...' lines
     (fixed: lines suppress nothing)."""
     out = {}
-    p = os.path.join(VERIF, "known-findings.txt")
-    if os.path.exists(p):
+    files = [os.path.join(VERIF, "known-findings.txt")]
+    # lines proposed by a property's own branch, same format, one file per
+    # property (known-findings.d/<id>.txt); folded into known-findings.txt on
+    # integration
+    dd = os.path.join(VERIF, "known-findings.d")
+    if os.path.isdir(dd):
+        files += [os.path.join(dd, f) for f in sorted(os.listdir(dd)) if f.endswith(".txt")]
+    for p in files:
+        if not os.path.exists(p):
+            continue
         for line in open(p):
             m = re.match(r"finding:\s+property=(\w+)\s+class=(\S+)\s*(.*)", line.strip())
             if m and m.group(1) == pid:
